@@ -119,6 +119,10 @@ func genLoopSpec(r *Rng, idx int) loopSpec {
 			l.Start, l.Limit, l.Step = pick(r, []string{"6", "9"}), "0", -1
 		}
 	}
+	if r.Chance(8) && l.Cmp != "!=" {
+		// step points AWAY from the limit: terminates only when the test fails at once
+		l.Step = -l.Step
+	}
 	l.Form = pick(r, []string{"top", "top", "top", "breaktest", "breaktest", "bottom", "top-with-break", "top-with-continue", "cond-update"})
 	l.Nested = r.Chance(25)
 	return l
